@@ -24,7 +24,8 @@
    sig (16-bit samples, a function of the absolute sample index, so block k is the same whoever encodes it): 0 digital silence,
    1 speech-like, 2 music-like, 3 noise at -12 dB, 4 full-scale square wave with full-scale noise bursts, 5 noise of +-3 units,
    6 speech with pauses of digital silence, 7 family 4 at -18 dB, 8 pure tone of 64 units, 9 chord of a few hundred units,
-   10 / 11 channels with nothing in common.
+   10 / 11 channels with nothing in common, 12..17 very quiet material (tones of 3..20 units, +-1 dither, +-10 noise, fade-outs).
+   P kind R: single-stream packets of duration fd merged `fec` at a time by the repacketizer (the stream's packets last fd*fec).
    Decoders use the format given at creation; each has a float twin ("shadow") fed the same calls, from whose
    output the 24-bit / 16-bit sample relations are measured (mismatch counts, never a verdict).
    Output: NDJSON, one event per op. */
@@ -141,6 +142,21 @@ static opus_int16 sig_sample(int sig, int fs, int c, long i)
       ones; 11: even channels silent, noise on the odd ones) - what a down-mix that drops or doubles a channel changes */
    if (sig == 10) return sig_sample((c & 1) ? 2 : 1, fs, 0, i);
    if (sig == 11) return (c & 1) ? sig_sample(3, fs, 0, i) : 0;
+   /* families 12..17: very quiet 16-bit material, whose band energies lie between what a 16-bit and a 24-bit noise floor would be
+      (12: 440 Hz tone of 10 units, 13: 1 kHz tone of 3 units, 14: dither of +-1 unit, 15: noise of +-10 units, 16: a 440 Hz tone
+      fading once a second from 2000 units down to 1, 17: tone of 20 units plus +-1 dither); other channels: another phase */
+   if (sig >= 12 && sig <= 17) {
+      double tt = (double)i / fs, ph = 0.7 * c, v = 0;
+      switch (sig) {
+      case 12: v = 10.0 * sin(2 * M_PI * 440.0 * tt + ph); break;
+      case 13: v = 3.0 * sin(2 * M_PI * 1000.0 * tt + ph); break;
+      case 14: v = floor(1.5 * hnoise(sig, c, i) + 0.5); break;
+      case 15: v = 10.0 * hnoise(sig, c, i); break;
+      case 16: v = (1.0 + 2000.0 * exp(-8.0 * fmod(tt, 1.0))) * sin(2 * M_PI * 440.0 * tt + ph); break;
+      default: v = 20.0 * sin(2 * M_PI * 440.0 * tt + ph) + floor(1.5 * hnoise(sig, c, i) + 0.5);
+      }
+      return (opus_int16)floor(v + 0.5);
+   }
    switch (sig) {
    case 0: return 0;
    case 6:   /* speech with pauses of digital silence: 400 ms on, 300 ms off */
@@ -624,10 +640,11 @@ static void op_decode(int oi, int sid, int k0, int n, int mode)
 /* ---------------------------------------------------------------- reference packet streams, bystanders */
 static void op_pstream(int sid, int kind, int fs, int chlay, int app, int br, int fd, int fec, int sig, int count)
 {
-   pstream_t *ps; int size, ch, fsamp, k; unsigned char *blk, *st; opus_int16 *x; unsigned char buf[4000]; uint64_t dg = 1469598103934665603ULL;
+   pstream_t *ps; int size, ch, fsamp, k, merge = 1; unsigned char *blk, *st; opus_int16 *x; unsigned char buf[4000]; uint64_t dg = 1469598103934665603ULL;
    if (sid < 0 || sid >= MAXPS || count < 1 || count > MAXPK) { js_open("Bad"); js_str("why", "pstream"); js_close(); return; }
    ps = &PS[sid];
    for (k = 0; k < MAXPK; k++) { free(ps->pk[k]); ps->pk[k] = NULL; }
+   if (kind == 'R') { merge = fec < 1 ? 1 : fec; fec = 0; kind = 'e'; }
    size = state_size(kind, chlay); ch = obj_channels(kind, chlay);
    if (size <= 0) { js_open("Bad"); js_str("why", "pstream size"); js_close(); return; }
    blk = (unsigned char *)calloc(1, (size_t)size); st = blk;
@@ -636,11 +653,23 @@ static void op_pstream(int sid, int kind, int fs, int chlay, int app, int br, in
    if (fec) { ctl1(st, kind, OPUS_SET_INBAND_FEC_REQUEST, 1); ctl1(st, kind, OPUS_SET_PACKET_LOSS_PERC_REQUEST, 20); }
    fsamp = fs / 400 * fd;
    x = (opus_int16 *)malloc(sizeof(opus_int16) * (size_t)fsamp * (size_t)ch);
-   ps->used = 1; ps->kind = kind; ps->fs = fs; ps->chlay = chlay; ps->fd = fd; ps->count = count;
+   ps->used = 1; ps->kind = kind; ps->fs = fs; ps->chlay = chlay; ps->fd = fd * merge; ps->count = count;
    for (k = 0; k < count; k++) {
-      int ret;
-      gen_block(x, sig, fs, ch, (long)k * fsamp, fsamp);
-      ret = encode_any(st, kind, 0, x, fsamp, ch, buf, (int)sizeof buf);
+      int ret = 0;
+      if (merge == 1) {
+         gen_block(x, sig, fs, ch, (long)k * fsamp, fsamp);
+         ret = encode_any(st, kind, 0, x, fsamp, ch, buf, (int)sizeof buf);
+      } else {
+         /* encode `merge` packets and let the repacketizer make one packet of them */
+         unsigned char part[6][1500]; int plen[6], m, okp = 1; OpusRepacketizer *rp = opus_repacketizer_create();
+         for (m = 0; m < merge && m < 6; m++) {
+            gen_block(x, sig, fs, ch, (long)(k * merge + m) * fsamp, fsamp);
+            plen[m] = encode_any(st, kind, 0, x, fsamp, ch, part[m], 1500);
+            if (plen[m] <= 0 || opus_repacketizer_cat(rp, part[m], plen[m]) != OPUS_OK) okp = 0;
+         }
+         if (okp) ret = opus_repacketizer_out(rp, buf, (opus_int32)sizeof buf);
+         opus_repacketizer_destroy(rp);
+      }
       if (ret < 0) ret = 0;
       ps->pk[k] = hx_exact(buf, (size_t)ret); ps->len[k] = ret;
       dg = (dg ^ hx_fnv(buf, (size_t)ret)) * 1099511628211ULL;
